@@ -75,7 +75,7 @@ def big_message_cases(ck, exe):
 
 
 def run(ck):
-    ck.prove("Properties_C07", THEOREMS)
+    ck.prove(["Properties_C07", "Properties_SrcHash"], THEOREMS + ["SRC_hash_string", "SRC_hash_file", "SRC_hash_string_is_standard", "SRC_hash_file_is_standard"])
     exe = ck.impl_driver(buf=4, hbuf=HBUF)
     ck.impl_flags = "-DWENCRY_VERIF -DWENCRY_VERIF_BUF_SZ=4 -DWENCRY_VERIF_HBUF_SZ=%d" % HBUF
     cases = gen_cases(ck)
